@@ -254,6 +254,26 @@ PROPS = {
         "quick": {"budget_s": 75, "chunk": 6, "chunk_timeout_s": 1200},
         "thorough": {"budget_s": 900, "chunk": 6, "minimise_s": 120, "chunk_timeout_s": 2400},
     },
+    "C19": {
+        "test": "TestC19",
+        "level": "exploration",
+        "world": "A (one real did:nuts node with a scripted hostile peer on the simulated peer-to-peer transport) and B (two real web nodes with a corrupting link on the simulated HTTP transport)",
+        "rule": "each run picks an arena. peer: 3-10 hostile envelopes of every message kind (empty, short, over-long byte fields, extreme clocks and ranges, truncated / corrupted set-reconciliation "
+                "filters, conversation ids captured from the node's own outstanding queries or bogus, paging numbers out of range), transaction lists with garbage, named-defect transactions, "
+                "transactions whose protected header has a structure-aware JSON mutation under a valid signature, and well-formed transactions that carry a mutated DID document (creation or update), "
+                "which reach the VDR on the notifier's goroutines. http: one or two exchanges of a real token-request + discovery workload between two nodes (metadata, presentation definition, "
+                "token request / response, did.json, status list, discovery registration / list) are mutated in transit in a seeded direction (JSON tree mutation: type confusion, null, deleted, "
+                "duplicated, renamed, swapped members, extreme numbers, long strings, deep nesting, truncation; JWT header / claims; form fields). Distinct = distinct decision hashes.",
+        "invariants": ["C19.no-panic", "C19.no-hang", "C19.unchanged"],
+        "assumptions": ["a panic on a goroutine spawned by the node ends the worker process; the driver re-runs that run alone in a fresh process and reports it only if the process dies again at the same place",
+                        "bytes that are not a well-formed protobuf envelope never reach the protocol (gRPC rejects them)",
+                        "mutated documents keep their original signature (JSON-LD and JWT proofs then fail): code behind a successful signature check is reached only for DAG transactions and DID documents, which the workload signs itself"],
+        "probes_expected": ["mutated-exchange-rejected", "mutated-exchange-tolerated", "well-formed-transaction-with-mutated-document-admitted"],
+        "crash_is_violation": True,
+        "env": {"VERIF_RUN_WALL_S": "180"},
+        "quick": {"budget_s": 90, "chunk": 10, "chunk_timeout_s": 600},
+        "thorough": {"budget_s": 1200, "chunk": 10, "minimise_s": 120, "chunk_timeout_s": 900},
+    },
     "C09": {
         "test": "TestC09",
         "level": "exploration",
